@@ -42,7 +42,9 @@ def sources(tier, seed, ctx):
         ni, gs = net
         r = random.Random(seed * 53 + n)
         outs = gen.pick_outputs(r, ni, len(gs), kind=['last', 'some', 'dup', 'withinput', 'many'][n % 5])
-        if outs and n % 3 == 0:
+        if n % 9 == 4:
+            sel = []          # the empty selection: nothing asserted, every input assignment satisfiable
+        elif outs and n % 3 == 0:
             sel = sorted(r.sample(range(len(outs)), r.randint(1, len(outs))))
         elif outs and n % 3 == 1:
             sel = [r.randrange(len(outs)) for _ in range(r.randint(1, 3))]
